@@ -5,6 +5,13 @@ every dictionary key; R11.3 control words injected before the LaTeX pass hit the
 where intended; R11.4 both passes are gated by the convert flag; R11.5 convert flag plumbing and
 identity on miss; R11.6 the mapper's table is the dictionary itself; R11.7 one left-to-right regex
 substitution with a per-match dictionary lookup.
+
+R11.4-R11.7 are decided on a symbolic execution of the text pipeline (class Sym) run once per value of
+the conversion flag: the string is followed from TextContent.text to the per-character escaper through
+helpers, guard clauses and temporaries, recording the transformations applied to it (replacement table,
+regex substitution, anything else); the substitution callback is evaluated on a symbolic match, and the
+table it looks up is evaluated as a constant of the source.  What cannot be followed is a gap, not a
+violation.
 """
 from __future__ import annotations
 
@@ -881,8 +888,7 @@ class Sym:
         if k in ("For", "AsyncFor"):
             return self.loop(s, env, fi, rets)
         if k == "While":
-            e1 = self.block(s.body, dict(env), fi, rets)
-            return self.join(env, e1)
+            return self.generic_loop(s, env, fi, rets, lambda e: None)
         if k == "Try":
             e1 = self.block(s.body, dict(env), fi, rets)
             if e1 is not None and s.orelse:
@@ -939,13 +945,26 @@ class Sym:
                 if r:
                     env[x] = frozenset(r) | frozenset(v for v in env[x] if not self.is_text(v) and v[0] != "esc")
                     return env
-        e1 = dict(env)
-        self.bind(s.target, self.elems(itv, s.iter), e1, fi)
-        e1 = self.block(s.body, e1, fi, rets)
-        out = self.join(env, e1)
+        out = self.generic_loop(s, env, fi, rets, lambda e: self.bind(s.target, self.elems(itv, s.iter), e, fi))
         if s.orelse and out is not None:
             out = self.block(s.orelse, out, fi, rets)
         return out
+
+    def generic_loop(self, s, env, fi, rets, bind_iteration):
+        """a loop over a symbolic collection: one generic iteration from the join of the entry state and the state
+        after an iteration (inductive step); if that join is not stable after a second round the loop keeps
+        transforming a tracked value and the analysis stops there (recorded -> gap)"""
+        state = dict(env)
+        for _round in range(3):
+            e1 = dict(state)
+            bind_iteration(e1)
+            e1 = self.block(s.body, e1, fi, rets if _round == 0 else [])
+            nxt = self.join(state, e1)
+            if nxt is None or all(frozenset(nxt.get(k, ())) == frozenset(state.get(k, ())) for k in nxt):
+                return nxt
+            state = nxt
+        self.unsupported.append(f"{fi.short}: the loop at {fi.where(s)} transforms a tracked value on every iteration (no fixed point)")
+        return state
 
 
 def _op_desc(op) -> str:
@@ -999,6 +1018,10 @@ def r11_4(ctx: Ctx, worlds: dict | None = None) -> dict:
         sy, texts, rest = worlds[flag]
         if sy.unsupported:
             ctx.gap("R11.4", f"{FLAG_FIELD}={flag}: statement outside the symbolic executor's subset on the text path ({sy.unsupported[0]})")
+        unknown = sorted(str(v)[:70] for v in rest if v[0] not in ("const",))
+        if unknown and texts:
+            ctx.gap("R11.4", f"{FLAG_FIELD}={flag}: besides the tracked text, value(s) that could not be classified reach the per-character escaper "
+                             f"({unknown[:2]}); cut-off of the symbolic run")
         if not texts:
             ctx.gap("R11.4", f"{FLAG_FIELD}={flag}: the text could not be followed from {entry.cls}.{TEXT_FIELD} to the per-character escaper "
                              f"(values reaching it: {sorted(str(v)[:60] for v in rest)[:3]})")
@@ -1193,10 +1216,15 @@ def check(ctx: Ctx) -> None:
         "R11.1 confluence of the ordered replacement table (no output re-translated, no key destroyed, documented token set); "
         "R11.2 the tokenizer regex parsed with re._parser has the documented form (greedy letter run, optional {[^}]*}) and "
         "fully matches every one of the dictionary keys; R11.3 control words injected before the LaTeX pass hit the dictionary "
-        "exactly for \\geq/\\leq; R11.4 both passes are control-dependent on the convert flag and nothing else rewrites the text; "
+        "exactly for \\geq/\\leq; R11.4 symbolic run of the text pipeline per value of the convert flag: flag off -> the escaper receives the text unchanged, flag on -> replacement table (complete, in order) then one regex substitution, nothing else; "
         "R11.5 flag plumbing, defaults and identity on miss; R11.6 mapper table = dictionary (682 unique commands); "
         "R11.7 conversion is one left-to-right pattern.sub with whole-match lookup.")
     ctx.assume("str.replace and re.sub behave as documented; the dictionary module is data (evaluated as constants)")
+    ctx.assume("symbolic run (R11.4-R11.7): the document text, the regex match and the matched command are uninterpreted symbols; "
+               "the conversion flag is enumerated over both values; conditions not decided by source constants are followed on both "
+               "sides and joined; loops over symbolic collections are one generic iteration iterated to a fixed point (no fixed point -> gap); "
+               "the replacement loop is recognised over the source's own literal table; returns inside exception handlers are not part of "
+               "the documented behaviour and are not collected")
     ctx.undecided("conversion results for arbitrary strings beyond what follows from the table/regex/gating rules")
     mapping = const_attr(pm, "RTFConstants", "RTF_CHAR_MAPPING")
     table = const_name(pm, "rtflite.dictionary.unicode_latex", "latex_to_char")
